@@ -544,6 +544,19 @@ pub fn insert_selector(cfg: &Cfg, e: &mut bevy::ecs::world::EntityMut) {
     let mut b = AnimationSelectorBuilder::<Key, Target>::new().initial_key(cfg.initial_key);
     for (k, tl) in cfg.keys.iter().enumerate() {
         if let Some(i) = tl {
+            // a key registered twice keeps the most recently added timeline: odd keys first get
+            // a decoy that animates every property
+            if k % 2 == 1 {
+                b = b.add(
+                    k as Key,
+                    TimelineBuilder::build(
+                        TargetProxy::timeline()
+                            .duration_seconds(7.0)
+                            .keyframe(TargetProxy::keyframe(0.0).a(-777.0).b(777.0).n(-777).k(77))
+                            .keyframe(TargetProxy::keyframe(1.0).a(555.0).b(-555.0).n(555).k(55)),
+                    ),
+                );
+            }
             // alternate between plain and merged timelines in the selector map
             if cfg.tls[*i].parts.len() == 1 && k % 2 == 0 {
                 b = b.add(k as Key, build_target_tl(&cfg.tls[*i].parts[0]));
